@@ -38,6 +38,13 @@ var sniffEntries = []string{"imagetype.Buf", "imagetype.Scan", "imagetype.ScanBu
 
 // sniffAll classifies stream through the four entry points; returns type names, error texts.
 func sniffAll(c *Ctx, stream []byte, rk int, d Delivery) (types, errs []string, panicked string, results []*harness.Result) {
+	return sniffAllAt(c, nil, false, stream, rk, d)
+}
+
+// sniffAllAt: the stream-consuming entry points (Scan, ScanBuf) receive a reader of
+// before++stream from which the caller has already taken the bytes of before (by reading, or by
+// seeking): their stream is what follows.
+func sniffAllAt(c *Ctx, before []byte, seek bool, stream []byte, rk int, d Delivery) (types, errs []string, panicked string, results []*harness.Result) {
 	for _, en := range sniffEntries {
 		e := harness.EntryByName(en)
 		c.Dev.Budget = c.Dev.Seq + 1<<20
@@ -45,8 +52,13 @@ func sniffAll(c *Ctx, stream []byte, rk int, d Delivery) (types, errs []string, 
 		if en == "imagetype.Buf" || en == "imagetype.ReadAt" {
 			dd = Delivery{}
 		}
-		r := newReader(c.Dev, stream, Fault{}, dd)
+		content := stream
 		env := &harness.Env{RK: rk}
+		if len(before) > 0 && (en == "imagetype.Scan" || en == "imagetype.ScanBuf") {
+			content = append(append([]byte(nil), before...), stream...)
+			env.Prepos, env.PreposSeek = len(before), seek
+		}
+		r := newReader(c.Dev, content, Fault{}, dd)
 		res := invoke(c, e, env, r)
 		results = append(results, res)
 		if res.Panic != nil {
@@ -205,6 +217,12 @@ func init() {
 						stream = append(stream, brands[x.Intn(len(brands))]...)
 					}
 				}
+				if x := c.L("gen:y"); x.Chance(1, 4) {
+					var d string
+					stream, d = gen.Recombine(x)
+					c.Descf("%s", d)
+					c.Inc("probe:recombined-header")
+				}
 				short := g.Chance(1, 6)
 				if short {
 					stream = stream[:g.Intn(24)]
@@ -221,9 +239,25 @@ func init() {
 				}
 				rk := cfg.Intn(harness.NumRK)
 				d := drawDelivery(c.L("dev:0"))
-				what := fmt.Sprintf("stream len=%d header=%x reader=%s delivery=%s", len(stream), stream[:minInt(24, len(stream))], harness.RKNames[rk], d)
+				// the stream may be the rest of a larger one: the caller has read (or skipped with
+				// Seek) what comes before - another image's header, or bytes up to a buffer edge
+				var before []byte
+				seek := false
+				if x := c.L("cfg:x"); x.Chance(1, 4) {
+					cn := canons[x.Intn(len(canons))]
+					before = append(before, cn.h...)
+					switch x.Intn(3) {
+					case 1:
+						before = append(before, x.Sub().Bytes(x.Intn(40))...)
+					case 2:
+						before = append(before, x.Sub().Bytes(4096-48+x.Intn(64))...)
+					}
+					seek = x.Bool() && !d.DataEOF
+					c.Inc("probe:pre-positioned-stream")
+				}
+				what := fmt.Sprintf("stream len=%d header=%x reader=%s delivery=%s before=%d seek=%v", len(stream), stream[:minInt(24, len(stream))], harness.RKNames[rk], d, len(before), seek)
 				c.Descf("%s", what)
-				types, errs, pan, results := sniffAll(c, stream, rk, d)
+				types, errs, pan, results := sniffAllAt(c, before, seek, stream, rk, d)
 				if c.PlanOnly {
 					return
 				}
